@@ -1,8 +1,11 @@
 (* Extract.v -- extraction of the executable models to OCaml (ExtrOcamlBasic only). *)
-Require Import TrackModel SigCore.
+Require Import TrackModel SigCore GenTypes AdaptorModel gen.Tables.
 Require Import ExtrOcamlBasic.
 Extraction Language OCaml.
 Set Extraction KeepSingleton.
 Extraction "../ocaml/extracted/model.ml"
   TrackModel.run TrackModel.obs_lists TrackModel.delivered TrackModel.removed_pending
-  SigCore.run_program SigCore.trace.
+  SigCore.run_program SigCore.trace
+  AdaptorModel.refs AdaptorModel.visited AdaptorModel.call AdaptorModel.call_doc AdaptorModel.wt AdaptorModel.wf_values
+  AdaptorModel.table_ok AdaptorModel.slices_ok AdaptorModel.modes_ok AdaptorModel.fields_ok
+  Tables.gen_visit_table Tables.gen_hop_modes Tables.gen_slices Tables.gen_members.
